@@ -28,6 +28,12 @@ TRUSTED = [
     "ProxiedCircuit.prepare_message (the full prepare_message path is driven in C05)",
     "ghost components evicted/seen of the theorems are not in the code; the harness oracle recomputes them from the "
     "values returned by gen_injectable_id and the current deque contents",
+    "new-packet theorems (Inj/InjFresh.v: C04_new_packet_fresh, C04_new_packet_refines, "
+    "C04_pbase_is_newest_plus_injections) are about the model function eff, which is compared with get_effective_id for "
+    "every ID in 0..base+2 (this range always contains hmax+1 and hmax+2, hmax <= base) at every distinct transition; their "
+    "ghosts hmax (highest endpoint ID forwarded, last_seen_id when none) and |jall| (injections ever made) are not in the "
+    "code and are not extracted: the harness recomputes them from the history and the values returned by "
+    "gen_injectable_id and checks the theorems' closed forms on the real tracker (theorem_gap)",
 ]
 
 NEG_INF = -10 ** 9
@@ -56,10 +62,11 @@ def _call(f, *a):
 
 class Run:
     """the real tracker + the ghost history the property talks about"""
-    __slots__ = ("t", "jall", "log", "wires", "outs")
+    __slots__ = ("t", "jall", "log", "wires", "outs", "hi")
 
     def __init__(self, maxlen, p0, _t=None):
         self.t = _t if _t is not None else _cls()(p0, maxlen)
+        self.hi = p0         # highest endpoint ID forwarded so far, last_seen_id when none (hmax of Inj/InjFresh.v)
         self.jall = []       # every ID returned by gen_injectable_id
         self.log = []        # distinct (o, w) forwarded pairs
         self.wires = set()   # every wire ID emitted
@@ -72,6 +79,7 @@ class Run:
         r.log = list(self.log)
         r.wires = set(self.wires)
         r.outs = list(self.outs)
+        r.hi = self.hi
         return r
 
     def state(self):
@@ -106,10 +114,11 @@ class Run:
             self.outs.append(w)
             if not isinstance(w, int):
                 return {"clause": "get_effective_id raised", "got": w}
-            # a NEW packet (endpoint ID above every ID forwarded so far - the in-order case) must get a wire ID that was never
-            # used before: not by any injected packet, aged out of the window or not, and above every wire ID already emitted
-            # for a forwarded packet (the forward clauses of the statement carry no aged-out qualifier)
-            if self.log and o > max(o1 for (o1, _w1) in self.log):
+            # a NEW packet (endpoint ID above last_seen_id and above every ID forwarded so far - the in-order case) must get a
+            # wire ID that was never used before: not by any injected packet, aged out of the window or not, and above every
+            # wire ID already emitted for a forwarded packet (the forward clauses of the statement carry no aged-out
+            # qualifier).  Exactly the hypotheses and clauses of theorem C04_new_packet_fresh.
+            if o > self.hi:
                 if w in self.jall:
                     return {"clause": "translation of a new packet yields an ID the proxy used for an injected packet",
                             "class": "new-id-hits-injected", "o": o, "w": w}
@@ -118,6 +127,7 @@ class Run:
                             "class": "new-id-not-fresh", "o": o, "w": w}
             _call(t.track_seen, w)
             self.wires.add(w)
+            self.hi = max(self.hi, o)
             mev = self.max_evicted()
             if w > mev:
                 if w in self.jall:
@@ -142,6 +152,25 @@ class Run:
             if back != o1:
                 return {"clause": "translating a wire ID back yields the endpoint's original ID",
                         "class": "reverse-translation-wrong", "o": o1, "w": w1, "got": back}
+        return None
+
+    def theorem_gap(self):
+        """theorems C04_pbase_is_newest_plus_injections and C04_new_packet_fresh (closed form) evaluated on the REAL tracker
+        with the ghosts recomputed here: base = hmax + |injections ever made| and the next new IDs translate to
+        ID + |injections ever made| (> base).  Not a clause of the property: reported as model-vs-implementation
+        disagreement, never as an impl violation."""
+        t = self.t
+        b, n = t._packet_id_base, len(self.jall)
+        if not isinstance(b, int):
+            return None
+        if b != self.hi + n:
+            return {"kind": "theorem-vs-impl", "theorem": "C04_pbase_is_newest_plus_injections", "base": b, "hmax": self.hi,
+                    "injections_ever": n}
+        for k in (1, 2):
+            w = _call(t.get_effective_id, self.hi + k)
+            if w != self.hi + k + n:
+                return {"kind": "theorem-vs-impl", "theorem": "C04_new_packet_fresh (closed form)", "o": self.hi + k, "got": w,
+                        "expected": self.hi + k + n}
         return None
 
     def check_state(self, qlo, qhi):
@@ -293,10 +322,14 @@ def _correspond(ctx):
              "every distinct (tracker state, op) transition met is also run on the extracted model and the whole observable "
              "(outputs of every op, base/injection-base/both deques, and get_effective_id/get_original_id/was_injected/"
              "was_dropped for every ID in 0..base+2) is compared; plus seeded random histories (length %d, maxlen in "
-             "{1..6,10000}); non-trivial = distinct transition whose history contains an injection"
+             "{1..6,10000}); after every step of every history (exhaustive and random) the closed forms of the new-packet "
+             "theorems are evaluated on the real tracker with recomputed ghosts: base = hmax + |injections ever made|, "
+             "get_effective_id(hmax+k) = hmax+k+|injections ever made| for k=1,2 (a failure is reported as a "
+             "model-vs-implementation disagreement); non-trivial = distinct transition whose history contains an injection"
              % (depth, ctx.pick(120, 300)))
     lines, impl_obs, keys = [], [], []
-    dist = {"corpus": 0, "exhaustive_histories": 0, "distinct_transitions": 0, "random_histories": 0}
+    dist = {"corpus": 0, "exhaustive_histories": 0, "distinct_transitions": 0, "random_histories": 0,
+            "theorem_checks": 0, "theorem_checks_after_eviction": 0}
     nontriv = 0
 
     def add_case(maxlen, p0, ops, r):
@@ -304,6 +337,15 @@ def _correspond(ctx):
         lines.append("%d %d 0 %d %s" % (maxlen, p0, qhi, " ".join(ops)))
         impl_obs.append(r.observe(0, qhi))
         keys.append({"maxlen": maxlen, "p0": p0, "ops": list(ops)})
+
+    def tgap(r, maxlen, ops, n=None):
+        # the new-packet theorems (Inj/InjFresh.v) evaluated on the real tracker at this state
+        dist["theorem_checks"] += 1
+        if len(r.jall) > len(r.t.injections):
+            dist["theorem_checks_after_eviction"] += 1
+        g = r.theorem_gap()
+        if g is not None and len(res.disagreements) < 20:
+            res.disagreements.append(dict(g, maxlen=maxlen, p0=0, ops=list(ops if n is None else ops[:n])))
 
     # corpus
     for name, c in corpus_cases():
@@ -325,6 +367,7 @@ def _correspond(ctx):
             nonlocal nontriv
             dist["exhaustive_histories"] += 1
             if v is None:
+                tgap(r2, m, ops2)
                 key = (r.state(), op)
                 if key not in seen_tr:
                     seen_tr.add(key)
@@ -355,6 +398,7 @@ def _correspond(ctx):
                 bad = dict(bad)
                 bad.update({"maxlen": m, "p0": 0, "ops": ops[:j + 1]})
                 break
+            tgap(r, m, ops, j + 1)
         if bad is None:
             bad = r.check_state(0, r.t._packet_id_base + 2)
             if bad is not None:
@@ -382,6 +426,23 @@ def _correspond(ctx):
             shrunk.append(w)
     res.impl_violations = shrunk
     res.evaluations = len(lines) + dist["exhaustive_histories"] + dist["random_histories"]
+    ctx.notes.append(
+        "proved (Qed, closed, all histories, every window size incl. 0): invariant, same-time strict monotonicity/injectivity, "
+        "inverse laws, gen freshness; for a NEW packet (ID above last_seen_id and above every ID forwarded so far) with NO aged-out "
+        "qualifier: wire ID = ID + number of injections ever made > base, never an injected ID (aged out or not), never on the "
+        "wire before, strictly above the wire ID of every earlier forwarded packet, equals the specification E over ALL injections "
+        "and translates back (C04_new_packet_fresh, C04_new_packet_refines, C04_pbase_is_newest_plus_injections); the start-value "
+        "hypothesis is necessary (C04_new_packet_below_start_refuted)")
+    ctx.notes.append(
+        "still qualified by above_evicted (necessarily: C04_unqualified_stability_refuted): stability / avoidance / reversal for an "
+        "OLD ID re-translated after an injection aged out (resend or out-of-order packet)")
+    ctx.notes.append(
+        "tied: model vs real tracker on outputs, all four state fields and eff/orig/was_injected/was_dropped for 0..base+2 at %d "
+        "distinct transitions + %d random histories; new-packet closed forms evaluated on the real tracker at %d states (%d after "
+        "at least one injection aged out); oracle-only: no clause of the statement (each oracle clause has a theorem: unqualified "
+        "for new packets, under the aged-out qualifier for old IDs)"
+        % (dist["distinct_transitions"], min(dist["random_histories"], ctx.pick(150, 2000)), dist["theorem_checks"],
+           dist["theorem_checks_after_eviction"]))
     res.distinct_nontrivial = nontriv
     res.distribution = dist
     res.exhaustive = False
